@@ -145,6 +145,27 @@ where
         let name = if pos < 11 { POINT_NAMES[pos].to_string() } else if (pos - 11) % 2 == 0 { format!("L{}", (pos - 11) / 2) } else { format!("R{}", (pos - 11) / 2) };
         job.check(&format!("identity at mandatory point {} is rejected before the combined check", name), matches!(res, Err(R1CSError::VerificationError)) && !last_is_combined, format!("{:?}", res));
     }
+    // a round count that does not match the padded size is rejected before the combined check
+    for kk in 0..=(k + 2) {
+        if kk == k {
+            continue;
+        }
+        let shr2 = new_shared::<SymA<C>>(shape, &Default::default(), Box::new(SymVals::<C::ScalarField>::new(seed)));
+        {
+            let mut sh2 = shr2.borrow_mut();
+            sh2.is_prover = false;
+            sh2.verifier_commitments = shr.borrow().verifier_commitments.clone();
+        }
+        let mut pv = SymVals::<C::ScalarField>::new(seed ^ 0x79);
+        let op2 = opaque_proof::<C>(&mut rng, &mut pv, kk, kk, None, "''");
+        let ctx = format!("verify_rounds{}", kk);
+        arena::set_ctx(&ctx);
+        let mut vt = new_verifier_transcript(shape);
+        let verifier = build_verifier(shape, &shr2, &mut vt);
+        let res = verifier.verify(&op2.proof, &pc, &bp);
+        let squeezed_r = arena::with(|a| a.chals.iter().any(|c| c.ctx == ctx && c.label == "r"));
+        job.check(&format!("a proof with {} inner-product rounds (padded size {}) is rejected before the combined check", kk, padded), matches!(res, Err(R1CSError::VerificationError)) && !squeezed_r, format!("{:?}, reached the combined check: {}", res, squeezed_r));
+    }
     arena::set_ctx("post");
     arena::with(|a| {
         if !a.opaque.is_empty() {
